@@ -90,6 +90,12 @@ def check_contract_level(ctx, m, g):
         chain = [n["method"] for n in A.find_all(body, lambda n: isinstance(n, dict) and n.get("x") and n.get("k") == "mcall")]
         if not {"flatten", "collect"} <= set(chain) or any(c in chain for c in ("take", "skip", "filter", "step_by", "last", "next")):
             ctx.violation("C16.union", key + ["concat"], C.where(m, wf.ty), "all parts' tables concatenated (into_iter().flatten().collect())", chain, STATEMENT)
+    # the table of ContractQueryMsg<A> must be a function of A alone: no state shared between instantiations of the generic impl
+    st = C.generated_statics(g)
+    ctx.inst("C16.no-shared-state", distinct=m.key)
+    if st:
+        ctx.violation("C16.no-shared-state", key + ["static"], C.where(m, wf.ty), "generated code defines no `static` (one object for all instantiations of a generic impl)", st, STATEMENT,
+                      "GlueMessage::emit (QueryResponses impl)")
     for kind in ("exec", "query", "sudo"):
         try:
             w2 = W.analyse(m, g, kind) if kind != "query" else wf
@@ -115,6 +121,7 @@ def run(ctx):
     C.corpus_adequacy(ctx, enforce=False)
     ctx.floor("C16.pairs", 60)
     ctx.floor("C16.union", 40)
+    ctx.floor("C16.no-shared-state", 40)
     return check.finish(
         ctx, "translation_validation",
         "(name, type) pairs in cosmwasm-schema-derive's expansion of every query enum vs {wire name -> model response type}; names == serde VARIANTS; placeholder iff generic; contract-level response table = one call per part (Query accessor) concatenated; contract-level JSON schema = any_of of exactly one subschema per part",
